@@ -28,10 +28,11 @@ ASSUMPTIONS = ["the reference server encodes the NetHome Plus contract as implem
                "sorted query + app key), password = sha256(loginId + sha256(pw) + app key))",
                "like the real cloud, the server answers an unregistered udpid with an entry that the device will not accept"]
 PATTERNS = [("ok",), ("timeout", "ok"), ("timeout", "timeout", "ok"), ("timeout", "timeout", "timeout"),
-            ("500",), ("timeout", "500"), ("timeout", "timeout", "500"), ("api",), ("timeout", "api"), ("timeout", "timeout", "api")]
+            ("500",), ("timeout", "500"), ("timeout", "timeout", "500"), ("api",), ("timeout", "api"), ("timeout", "timeout", "api"),
+            ("302",), ("timeout", "404")]
 EPS = ["/v1/user/login/id/get", "/v1/user/login", "/v1/iot/secure/getToken"]
 ACCOUNTS = [("US", None, None), ("DE", None, None), ("KR", None, None), ("US", "user+tag@example_mail.com", "pa55_word+@"),
-            ("DE", "a@b.c", "x")]
+            ("DE", "a@b.c", "x"), ("US", "first last&co=1%@example.com", "pass word")]
 
 
 def bounds(tier):
@@ -40,7 +41,7 @@ def bounds(tier):
 
 
 def shards(tier):
-    out = [("flows", i, 10) for i in range(10)]
+    out = [("flows", i, 12) for i in range(12)]
     out += [("lists", a, 0) for a in range(len(ACCOUNTS))]
     out += [("discover", i, 0) for i in range(4)]
     out += [("discover2", i, 0) for i in range(len(PATTERNS))]
@@ -207,7 +208,7 @@ def run_discover2(st: Stats, pidx: int):
     reach the server must verify - in particular no token request may be sent without the session of a successful login.
     """
     for ep in EPS:
-        for acc in (ACCOUNTS[0], ACCOUNTS[3]):
+        for acc in (ACCOUNTS[0], ACCOUNTS[5]):
             w = World()
             region, account, password = creds_for(acc)
             ids = [0x0000_0A0B_0C0D_0E01, 0x0000_0A0B_0C0D_0E02]
